@@ -25,6 +25,7 @@ type params struct {
 	F        int
 	P        int
 	Refuse   bool // broker refuses the resume of the first stream (non-conflict code)
+	OpenScope bool // schedule deviations in the open calls themselves (between the open response and the subscriptions)
 	Zero     bool // the broker numbers stream aliases from 0
 	During   bool // the link is cut first (redial takes 3 s) and the InFlight call is issued during the outage
 	Conflict bool // broker answers the first resume attempt of every stream with RESUME_REQUEST_CONFLICT, the next with success
@@ -40,6 +41,9 @@ func (p params) name() string {
 	}
 	if p.During {
 		return fmt.Sprintf("%s/%s/F%d/P%d/during-outage", p.Streams, p.InFlight, p.F, p.P)
+	}
+	if p.OpenScope {
+		return fmt.Sprintf("%s/%s/F%d/P%d/openscope", p.Streams, p.InFlight, p.F, p.P)
 	}
 	if p.Zero {
 		return fmt.Sprintf("%s/%s/F%d/P%d/refuse%v/alias0", p.Streams, p.InFlight, p.F, p.P, p.Refuse)
@@ -74,6 +78,9 @@ func scenarios(tier string) []vlib.Scenario {
 	add(params{Kind: "e", Streams: "upR+upU", InFlight: "none", F: 1, Refuse: true, Zero: true})
 	add(params{Kind: "e", Streams: "upR+upU", InFlight: "none", F: 1, Refuse: true, Zero: true, P: 1})
 	add(params{Kind: "e", Streams: "up+down", InFlight: "none", F: 1, P: 1})
+	// an outage that begins and ends while an open call is between its response and its subscriptions
+	add(params{Kind: "e", Streams: "down", InFlight: "openup", F: 1, P: 1, OpenScope: true})
+	add(params{Kind: "e", Streams: "up", InFlight: "opendown", F: 1, P: 1, OpenScope: true})
 	// requests issued while the connection is down
 	for _, f := range []string{"openup", "opendown", "meta", "call", "write"} {
 		add(params{Kind: "e", Streams: "up+down", InFlight: f, F: 0, During: true})
@@ -110,6 +117,9 @@ func config(sc vlib.Scenario, tier string) vsched.Config {
 		return cfg
 	}
 	cfg.Scope = func(site string) bool {
+		if p.OpenScope {
+			return strings.HasPrefix(site, "iscp.(*Conn).OpenUpstream") || strings.HasPrefix(site, "iscp.(*Conn).OpenDownstream") || strings.Contains(site, "SendUpstreamOpenRequest") || strings.Contains(site, "SendDownstreamOpenRequest")
+		}
 		for _, s := range []string{"iscp.(*connStatus)", "iscp.(*Conn).run", "iscp.(*Conn).reconnect", "iscp.(*Conn).send", "observeConnClose", "(*Upstream).run", "(*Downstream).run", "iscp.(*Conn).OpenUpstream.func", "iscp.(*Conn).OpenDownstream.func", "ConnectWithConfig.func"} {
 			if strings.Contains(site, s) {
 				return true
@@ -121,6 +131,7 @@ func config(sc vlib.Scenario, tier string) vsched.Config {
 }
 
 type world struct {
+	cutAfter message.Message
 	kit.World
 	p        params
 	cuts     int
@@ -188,7 +199,12 @@ func (w *world) script() *sim.Script {
 		}
 		key := fmt.Sprintf("%s:%s", dir, kit.MsgName(m))
 		w.rxn[key]++
-		if vsched.ChooseBudget(fmt.Sprintf("cut@%s#%d", key, w.rxn[key]), 2, vsched.BudF) == 1 {
+		alts := 2
+		if w.p.OpenScope && dir == "tx" {
+			alts = 3 // 2 = the message is delivered and the link dies right after
+		}
+		switch vsched.ChooseBudget(fmt.Sprintf("cut@%s#%d", key, w.rxn[key]), alts, vsched.BudF) {
+		case 1:
 			w.cuts++
 			if established[c.Idx] {
 				w.estCuts++
@@ -197,8 +213,26 @@ func (w *world) script() *sim.Script {
 				u.Held = nil
 			}
 			return sim.FaultCut
+		case 2:
+			w.cutAfter = m
 		}
 		return sim.NoFault
+	}
+	s.AfterSend = func(b *sim.Broker, c *sim.BConn, m message.Message) {
+		if w.cutAfter != nil && w.cutAfter == m {
+			w.cutAfter = nil
+			vsched.WaitUntil("delivered", func() bool { return c.Link.Delivered() || c.Dead })
+			if !c.Dead {
+				w.cuts++
+				if established[c.Idx] {
+					w.estCuts++
+				}
+				for _, u := range w.B.Ups {
+					u.Held = nil
+				}
+				b.Cut(c)
+			}
+		}
 	}
 	refused := false
 	s.AcceptDial = func(n int, cfg transport.DialConfig) (bool, time.Duration) {
